@@ -1,6 +1,7 @@
 // Package sched holds the build-time half of engine E4: the instrumenter that
 // turns every access to shared state in a generated mock file (receiver-rooted
-// field paths, package-level variables declared in that file) into a
+// field paths, package-level variables declared in that file, local variables
+// that a closure assigns to from outside their declaration) into a
 // scheduling point + vector-clock event of the vrt runtime, and redirects the
 // file's "sync" import to the vsync shim. The instrumenter is generic: it works
 // from go/types information, not from the template text.
@@ -35,6 +36,9 @@ type instr struct {
 	fn      string
 	rep     *Report
 	tmpN    int
+	// local variables that a function literal assigns to although they are declared outside it: state shared
+	// between every invocation of the closure (and with the enclosing function)
+	captured map[*types.Var]bool
 }
 
 // Instrument loads pkgPath in dir, instruments the file whose base name is
@@ -68,6 +72,7 @@ func instrumentFile(p *packages.Package, f *ast.File) ([]byte, *Report, error) {
 	in := &instr{info: p.TypesInfo, pkg: p.Types, fset: p.Fset, genFile: p.Fset.File(f.Pos()), rep: &Report{}}
 	f.Comments = nil
 	f.Doc = nil
+	in.captured = capturedWrites(p.TypesInfo, p.Types, f)
 	for _, d := range f.Decls {
 		switch d := d.(type) {
 		case *ast.FuncDecl:
@@ -135,6 +140,77 @@ func instrumentFile(p *packages.Package, f *ast.File) ([]byte, *Report, error) {
 	return out, in.rep, nil
 }
 
+// capturedWrites finds the local variables (parameters included) that some function literal writes to while
+// they are declared outside that literal.
+func capturedWrites(info *types.Info, pkg *types.Package, f *ast.File) map[*types.Var]bool {
+	out := map[*types.Var]bool{}
+	var lits []*ast.FuncLit
+	root := func(e ast.Expr) *ast.Ident {
+		for {
+			switch x := e.(type) {
+			case *ast.ParenExpr:
+				e = x.X
+			case *ast.IndexExpr:
+				e = x.X
+			case *ast.StarExpr:
+				e = x.X
+			case *ast.Ident:
+				return x
+			default:
+				return nil
+			}
+		}
+	}
+	mark := func(e ast.Expr) {
+		id := root(e)
+		if id == nil || len(lits) == 0 {
+			return
+		}
+		v, ok := info.Uses[id].(*types.Var)
+		if !ok || v.IsField() || v.Parent() == pkg.Scope() || v.Parent() == types.Universe {
+			return
+		}
+		for _, l := range lits {
+			if v.Pos() < l.Pos() || v.Pos() > l.End() {
+				out[v] = true
+				return
+			}
+		}
+	}
+	var walk func(n ast.Node)
+	walk = func(n ast.Node) {
+		ast.Inspect(n, func(n ast.Node) bool {
+			switch x := n.(type) {
+			case *ast.FuncLit:
+				lits = append(lits, x)
+				walk(x.Body)
+				lits = lits[:len(lits)-1]
+				return false
+			case *ast.AssignStmt:
+				if x.Tok != token.DEFINE {
+					for _, l := range x.Lhs {
+						mark(l)
+					}
+				}
+			case *ast.IncDecStmt:
+				mark(x.X)
+			case *ast.RangeStmt:
+				if x.Tok == token.ASSIGN {
+					if x.Key != nil {
+						mark(x.Key)
+					}
+					if x.Value != nil {
+						mark(x.Value)
+					}
+				}
+			}
+			return true
+		})
+	}
+	walk(f)
+	return out
+}
+
 func (in *instr) accessStmt(path string, write bool) ast.Stmt {
 	k := "R"
 	w := "false"
@@ -161,6 +237,9 @@ func (in *instr) chain(e ast.Expr) (path string, skip bool) {
 			if in.fset.File(v.Pos()) == in.genFile {
 				return "pkgvar:" + v.Name(), false
 			}
+		}
+		if v, ok := in.info.Uses[e].(*types.Var); ok && in.captured[v] {
+			return fmt.Sprintf("captured:%s@%d", v.Name(), in.fset.Position(v.Pos()).Line), false
 		}
 		return "", false
 	case *ast.SelectorExpr:
